@@ -312,6 +312,9 @@ const CORPUS: &[&str] = &[
     "thresh(2,pk(K0),s:pk(K1),s:pk(K2))",
     "thresh(3,pk(K0),s:pk(K1),s:pk(K2))",
     "thresh(2,pk(K0),a:sha256(H),sdv:older(3))",
+    // seeded change C09-9: children that rank differently by witness bytes and by witness elements
+    "thresh(2,pk(K0),s:pk(K1),ajt:and_v(v:sha256(H),v:sha256(H)))",
+    "thresh(1,pk(K0),ajt:and_v(v:sha256(H),and_v(v:sha256(H),v:sha256(H))),s:pk(K1))",
     "or_d(pk(K0),and_v(v:pk(K1),older(100)))",
     "andor(pk(K0),older(10),pk(K1))",
     "or_i(and_v(v:pk(K0),pk(K1)),pk(K2))",
@@ -674,6 +677,8 @@ const DESC_CORPUS: &[(&str, &str)] = &[
     ("wsh", "and_v(v:pk(K0),thresh(1,ln:older(1),aln:older(2),aln:older(3)))"),
     ("wsh", "thresh(1,ln:older(1),aln:older(2),aln:older(3))"),
     ("wsh", "or_d(pk(K0),dv:older(5))"),
+    ("wsh", "thresh(2,pk(K0),s:pk(K1),ajt:and_v(v:sha256(H),v:sha256(H)))"),
+    ("sh", "thresh(2,pk(K0),s:pk(K1),ajt:and_v(v:sha256(H),v:sha256(H)))"),
     ("wsh", "or_b(or_i(and_v(v:or_i(0,or_i(0,or_i(0,or_i(0,1)))),0),sha256(H)),s:pk(K3))"),
     ("sh", "c:pk_h(K6)"),
     ("sh", "multi(4,K0,K1,K2,K3)"),
